@@ -6,7 +6,7 @@ that do not increase the depth + no saturating `IncreaseDepth`) the recursion bu
 
 Measure: `(maxDepth − curDepth, rank)` lexicographically. `k = maxDepth − curDepth ≥ 1` outside the saturated region;
 a reference through an `IncreaseDepth` site goes to `k − 1` (any rank), a plain reference keeps `k` and lowers the rank;
-at `k = 0` (saturated) only `quiet` types are entered, they contain no `IncreaseDepth` site and all random sizes,
+at `k = 0` (saturated) only `satFinite` types are entered, they contain no `IncreaseDepth` site and all random sizes,
 masks and union indices are 0 there.  The invariant carried along is that every call returns with `curDepth` and
 `maxDepth` unchanged — which is exactly what fails when an `IncreaseDepth` saturates.
 -/
@@ -91,18 +91,20 @@ theorem fillPrim_same (k : PrimK) (rg : RG) : rg.same (fillPrim k rg).2 := by
   | str => exact randomString_same rg
   | bool f t => exact randomUint_same rg
 
-theorem inc_lt {rg : RG} (h : rg.cur < rg.maxDepth) : rg.inc.cur = rg.cur + 1 ∧ rg.inc.maxDepth = rg.maxDepth := by
-  unfold RG.inc
-  rw [if_pos (by omega)]
-  exact ⟨rfl, rfl⟩
+theorem inc_eq (rg : RG) : rg.inc.cur = rg.cur + 1 ∧ rg.inc.maxDepth = rg.maxDepth := ⟨rfl, rfl⟩
 
-/-- `DecreaseDepth` after a body that kept the counters restores the state before a non-saturating `IncreaseDepth` -/
-theorem dec_after_inc {rg rg2 : RG} (h : rg.cur < rg.maxDepth) (hs : rg.inc.same rg2) : rg.same rg2.dec := by
-  obtain ⟨h1, h2⟩ := inc_lt h
+/-- `DecreaseDepth` after a body that kept the counters restores the state before the `IncreaseDepth` — at any depth,
+now that the increase is unconditional -/
+theorem dec_inc {rg rg2 : RG} (hs : rg.inc.same rg2) : rg.same rg2.dec := by
+  obtain ⟨h1, h2⟩ := inc_eq rg
   obtain ⟨s1, s2⟩ := hs
   unfold RG.dec
   rw [if_pos (by omega)]
   exact ⟨by simp only; omega, by simp only; omega⟩
+
+theorem inc_lt {rg : RG} (_h : rg.cur < rg.maxDepth) : rg.inc.cur = rg.cur + 1 ∧ rg.inc.maxDepth = rg.maxDepth := inc_eq rg
+
+theorem dec_after_inc {rg rg2 : RG} (_h : rg.cur < rg.maxDepth) (hs : rg.inc.same rg2) : rg.same rg2.dec := dec_inc hs
 
 /-! ### "answers and keeps the counters" -/
 
@@ -144,7 +146,7 @@ theorem fillElems_good {fl : Fl} (f : Field) (na : List Nat) {c m : Nat}
         exact goodL_ok (RG.same_trans s1 (i2 vs rg2 hr2))
 
 
-/-! ### the saturated region: `quiet` types -/
+/-! ### the saturated region: `satFinite` types -/
 
 /-- every `#` field with storage filled so far holds 0 (or was reset) -/
 def ZeroNats (d : Desc) (all : List Field) (acc : List (Option Val)) : Prop :=
@@ -230,14 +232,14 @@ theorem fillFields_quiet {d : Desc} {fl : Fl} {q : Nat → Bool} {gx : Nat → F
     (hU : ∀ ty na rg v rg', d.isU32 ty = true → rg.cur ≥ rg.maxDepth → fl ty na rg = .ok (v, rg') → v = .nat 0) :
     ∀ (fields : List Field) (i : Nat) (acc : List (Option Val)) (rg : RG),
       (∀ j f, fields[j]? = some f → all[i + j]? = some f) → acc.length = i → ZeroNats d all acc →
-      quietFields d q gx all fields i = true → rg.cur ≥ rg.maxDepth →
+      satFields d q gx all fields i = true → rg.cur ≥ rg.maxDepth →
       GoodL (fillFieldsWith fl gx params fields i acc rg) rg := by
   intro fields
   induction fields with
   | nil => intro i acc rg _ _ _ _ _; simp only [fillFieldsWith]; exact goodL_ok (RG.same_refl rg)
   | cons f fs ih =>
     intro i acc rg hall hlen hz hq hsat
-    simp only [quietFields, Bool.and_eq_true] at hq
+    simp only [satFields, Bool.and_eq_true] at hq
     have hall' : ∀ j g, fs[j]? = some g → all[i + 1 + j]? = some g := by
       intro j g hg
       have := hall (j + 1) g (by simpa using hg)
@@ -270,33 +272,64 @@ theorem fillFields_quiet {d : Desc} {fl : Fl} {q : Nat → Bool} {gx : Nat → F
             · rcases masked_absent hz cm params with h | h
               · rw [hp] at h; cases h
               · rw [hp] at h; cases h
-            · have h3 : ((gx i).recursive = false) ∧ ((gx i).drawn = true ∨ q f.ty = true) := by
+            · have h3 : (gx i).drawn = true ∨ q f.ty = true := by
                 have := hq.1
-                simp only [cb, cm, Bool.false_or, Bool.and_eq_true, Bool.not_eq_true', Bool.or_eq_true] at this
-                exact this
-              rw [h3.1]
-              simp only [Bool.false_eq_true, if_false]
-              have hgood : (gx i).drawn = true ∨ Good fl f.ty na rg := by
-                rcases h3.2 with h | h
+                simpa [cb, cm] using this
+              -- the recursive flag only wraps the field in an exact IncreaseDepth / DecreaseDepth pair, still at the limit
+              have hw : ∃ rg1 : RG, (if (gx i).recursive = true then rg.inc else rg) = rg1 ∧ rg1.cur ≥ rg1.maxDepth ∧
+                  ∀ rg2, rg1.same rg2 → rg.same (if (gx i).recursive = true then rg2.dec else rg2) := by
+                by_cases cr : (gx i).recursive = true
+                · refine ⟨rg.inc, by rw [if_pos cr], ?_, ?_⟩
+                  · have := inc_eq rg; omega
+                  · intro rg2 h2; rw [if_pos cr]; exact dec_inc h2
+                · refine ⟨rg, by rw [if_neg cr], hsat, ?_⟩
+                  intro rg2 h2; rw [if_neg cr]; exact h2
+              obtain ⟨rg1, e1, hsat1, hback⟩ := hw
+              rw [e1]
+              have hgood : (gx i).drawn = true ∨ Good fl f.ty na rg1 := by
+                rcases h3 with h | h
                 · exact Or.inl h
-                · exact Or.inr (hQ _ h na rg hsat)
-              obtain ⟨⟨g1, g2⟩, g3⟩ := fillValue_sat (d := d) (x := gx i) (f := f) hsat hgood
-                (fun v rg' hu h => hU _ _ _ _ _ hu hsat h)
-              cases hr : fillValue fl (gx i) f na rg with
+                · exact Or.inr (hQ _ h na rg1 hsat1)
+              obtain ⟨⟨g1, g2⟩, g3⟩ := fillValue_sat (d := d) (x := gx i) (f := f) hsat1 hgood
+                (fun v rg' hu h => hU _ _ _ _ _ hu hsat1 h)
+              cases hr : fillValue fl (gx i) f na rg1 with
               | error e => exact goodL_error (fun e' => g1 (by rw [hr, e'])) rg
               | ok p =>
                 obtain ⟨v, rg2⟩ := p
-                have s1 := g2 v rg2 hr
-                have hsat2 : rg2.cur ≥ rg2.maxDepth := by rw [s1.1, s1.2]; exact hsat
+                have s1 := hback rg2 (g2 v rg2 hr)
+                have hsat2 : (if (gx i).recursive = true then rg2.dec else rg2).cur ≥
+                    (if (gx i).recursive = true then rg2.dec else rg2).maxDepth := by rw [s1.1, s1.2]; exact hsat
                 have hz2 : ZeroNats d all (acc ++ [some v]) := by
                   refine zeroNats_snoc hz _ ?_
                   intro g hg _ hu
                   rw [hf0] at hg; injection hg with hg; subst hg
                   right; rw [g3 v rg2 hr hu]
-                obtain ⟨i1, i2⟩ := ih _ _ rg2 hall' (hlen' _) hz2 hq.2 hsat2
+                obtain ⟨i1, i2⟩ := ih _ _ _ hall' (hlen' _) hz2 hq.2 hsat2
                 simp only
                 exact ⟨i1, fun x rg' h => RG.same_trans s1 (i2 x rg' h)⟩
 
+
+/-- the elements of an array right after its `IncreaseDepth`, and the `DecreaseDepth` that follows them -/
+theorem elems_inc {fl : Fl} (f : Field) (na : List Nat) {rg : RG}
+    (hb : ∀ rg', rg'.cur = rg.cur + 1 → rg'.maxDepth = rg.maxDepth → Good fl f.ty na rg')
+    (n : Nat) (rg1 : RG) (h1 : rg.inc.same rg1) :
+    GoodL (match fillElemsWith fl f na n rg1 with
+      | .error e => (.error e : Except CErr (Val × RG))
+      | .ok (vs, rg') => .ok (.arr vs, rg'.dec)) rg := by
+  obtain ⟨i1, i2⟩ := inc_eq rg
+  obtain ⟨g1, g2⟩ := fillElems_good f na hb n rg1 (by rw [h1.1]; exact i1) (by rw [h1.2]; exact i2)
+  cases hr : fillElemsWith fl f na n rg1 with
+  | error e => exact goodL_error (fun e' => g1 (by rw [hr, e'])) rg
+  | ok p =>
+    obtain ⟨vs, rg2⟩ := p
+    exact goodL_ok (dec_inc (RG.same_trans h1 (g2 vs rg2 hr)))
+
+theorem elems_after_inc {fl : Fl} (f : Field) (na : List Nat) {rg : RG} (_hlt : rg.cur < rg.maxDepth)
+    (hb : ∀ rg', rg'.cur = rg.cur + 1 → rg'.maxDepth = rg.maxDepth → Good fl f.ty na rg')
+    (n : Nat) (rg1 : RG) (h1 : rg.inc.same rg1) :
+    GoodL (match fillElemsWith fl f na n rg1 with
+      | .error e => (.error e : Except CErr (Val × RG))
+      | .ok (vs, rg') => .ok (.arr vs, rg'.dec)) rg := elems_inc f na hb n rg1 h1
 
 theorem fillTL1_u32_sat (d : Desc) (gi : GenInfo) (fuel ty : Nat) (na : List Nat) (rg : RG) (v : Val) (rg' : RG)
     (hu : d.isU32 ty = true) (hsat : rg.cur ≥ rg.maxDepth) (h : fillTL1 d gi fuel ty na rg = .ok (v, rg')) : v = .nat 0 := by
@@ -318,21 +351,21 @@ theorem fillTL1_u32_sat (d : Desc) (gi : GenInfo) (fuel ty : Nat) (na : List Nat
       | array a => simp [hg] at hu
       | dict a => simp [hg] at hu
 
-/-- **the saturated region**: a `quiet` type, entered at the depth limit, is filled without running out of fuel `≥ n`
+/-- **the saturated region**: a `satFinite` type, entered at the depth limit, is filled without running out of fuel `≥ n`
 and without touching the depth counters -/
 theorem fillTL1_quiet (d : Desc) (gi : GenInfo) :
-    ∀ (n fuel ty : Nat) (params : List Nat) (rg : RG), n ≤ fuel → quiet d gi n ty = true → rg.cur ≥ rg.maxDepth →
+    ∀ (n fuel ty : Nat) (params : List Nat) (rg : RG), n ≤ fuel → satFinite d gi n ty = true → rg.cur ≥ rg.maxDepth →
       Good (fillTL1 d gi fuel) ty params rg := by
   intro n
   induction n with
-  | zero => intro fuel ty params rg _ hq _; simp [quiet] at hq
+  | zero => intro fuel ty params rg _ hq _; simp [satFinite] at hq
   | succ n ih =>
     intro fuel ty params rg hle hq hsat
     cases fuel with
     | zero => omega
     | succ fuel =>
       have hle' : n ≤ fuel := by omega
-      simp only [quiet] at hq
+      simp only [satFinite] at hq
       unfold Good
       simp only [fillTL1]
       cases hg : d.get? ty with
@@ -347,7 +380,7 @@ theorem fillTL1_quiet (d : Desc) (gi : GenInfo) :
           · rw [if_pos co]; exact goodL_error (by decide) rg
           · rw [if_neg co]
             simp only [co, Bool.false_or] at hq
-            have hfl := fillFields_quiet (d := d) (fl := fillTL1 d gi fuel) (q := quiet d gi n) (gx := structGx gi ty s)
+            have hfl := fillFields_quiet (d := d) (fl := fillTL1 d gi fuel) (q := satFinite d gi n) (gx := structGx gi ty s)
               (params := params) (all := s.fields)
               (fun ty' hq' na rg' hs => ih fuel ty' na rg' hle' hq' hs)
               (fun ty' na rg' v rg'' hu hs h => fillTL1_u32_sat d gi fuel ty' na rg' v rg'' hu hs h)
@@ -374,8 +407,37 @@ theorem fillTL1_quiet (d : Desc) (gi : GenInfo) :
               cases hr : fillTL1 d gi fuel vi na rg with
               | error e => exact goodL_error (fun e' => g1 (by rw [hr, e'])) rg
               | ok p => obtain ⟨x, r⟩ := p; exact goodL_ok (g2 x r hr)
-        | array a => cases hq
-        | dict a => cases hq
+        | array a =>
+          simp only
+          cases hna : natArgVals [] params a.elem.natArgs with
+          | none => exact goodL_error (by decide) rg
+          | some na =>
+            simp only
+            have hsi : rg.inc.cur ≥ rg.inc.maxDepth := by have := inc_eq rg; omega
+            by_cases ct : a.isTuple = true
+            · rw [if_pos ct]
+              cases hn : (if a.dynamic = true then params[0]? else some a.count) with
+              | none => exact goodL_error (by decide) rg
+              | some m =>
+                simp only
+                have hqe : satFinite d gi n a.elem.ty = true := by simpa [ct] using hq
+                exact elems_inc a.elem na (fun rg' h1 h2 => ih fuel a.elem.ty na rg' hle' hqe (by omega)) m rg.inc (RG.same_refl _)
+            · rw [if_neg ct, randomSize_sat hsi]
+              simp only [fillElemsWith]
+              exact goodL_ok (dec_inc (RG.same_refl _))
+        | dict a =>
+          simp only
+          have hsi : rg.inc.cur ≥ rg.inc.maxDepth := by have := inc_eq rg; omega
+          cases hna : natArgVals [] params a.elem.natArgs with
+          | none => exact goodL_error (by decide) rg
+          | some na =>
+            cases hkp : dictKeyPrim d a with
+            | none => exact goodL_error (by decide) rg
+            | some kp =>
+              simp only
+              rw [randomSize_sat hsi]
+              simp only [fillElemsWith]
+              exact goodL_ok (dec_inc (RG.same_refl _))
 
 
 /-! ### outside the saturated region -/
@@ -399,7 +461,7 @@ theorem fillFields_term {fl : Fl} {gx : Nat → FieldX} {params : List Nat} {S q
     (hPlain : ∀ ty', rkAt rk ty' < r → S ty' = true → ∀ na rg, rg.cur = c → rg.maxDepth = m → Good fl ty' na rg)
     (hBody : ∀ ty', S ty' = true → q ty' = true → ∀ na rg, rg.cur = c + 1 → rg.maxDepth = m → Good fl ty' na rg) :
     ∀ (fields : List Field) (i : Nat) (acc : List (Option Val)) (rg : RG),
-      (∀ f ∈ fields, S f.ty = true) → fieldsRanked rk r gx fields i = true → capFreeFields q gx fields i = true →
+      (∀ f ∈ fields, S f.ty = true) → fieldsRanked rk r gx fields i = true → satOkFields q gx fields i = true →
       rg.cur = c → rg.maxDepth = m → GoodL (fillFieldsWith fl gx params fields i acc rg) rg := by
   intro fields
   induction fields with
@@ -408,7 +470,7 @@ theorem fillFields_term {fl : Fl} {gx : Nat → FieldX} {params : List Nat} {S q
     intro i acc rg hS hrk hcf hc hm
     have hS' : ∀ g ∈ fs, S g.ty = true := fun g hg => hS g (by simp [hg])
     simp only [fieldsRanked, Bool.and_eq_true] at hrk
-    simp only [capFreeFields, Bool.and_eq_true] at hcf
+    simp only [satOkFields, Bool.and_eq_true] at hcf
     simp only [fillFieldsWith]
     cases hp : fieldPresent f acc params with
     | none => exact goodL_error (by decide) rg
@@ -466,21 +528,6 @@ theorem fillFields_term {fl : Fl} {gx : Nat → FieldX} {params : List Nat} {S q
                 exact ⟨j1, fun x rg' h => RG.same_trans s1 (j2 x rg' h)⟩
 
 
-/-- the elements of an array right after its `IncreaseDepth` -/
-theorem elems_after_inc {fl : Fl} (f : Field) (na : List Nat) {rg : RG} (hlt : rg.cur < rg.maxDepth)
-    (hb : ∀ rg', rg'.cur = rg.cur + 1 → rg'.maxDepth = rg.maxDepth → Good fl f.ty na rg')
-    (n : Nat) (rg1 : RG) (h1 : rg.inc.same rg1) :
-    GoodL (match fillElemsWith fl f na n rg1 with
-      | .error e => (.error e : Except CErr (Val × RG))
-      | .ok (vs, rg') => .ok (.arr vs, rg'.dec)) rg := by
-  obtain ⟨i1, i2⟩ := inc_lt hlt
-  obtain ⟨g1, g2⟩ := fillElems_good f na hb n rg1 (by rw [h1.1]; exact i1) (by rw [h1.2]; exact i2)
-  cases hr : fillElemsWith fl f na n rg1 with
-  | error e => exact goodL_error (fun e' => g1 (by rw [hr, e'])) rg
-  | ok p =>
-    obtain ⟨vs, rg2⟩ := p
-    exact goodL_ok (dec_after_inc hlt (RG.same_trans h1 (g2 vs rg2 hr)))
-
 theorem fillRanked_variant {gi : GenInfo} {rk : List Nat} {ty : Nat} {u : UnionD} (h : Inst.fillRanked gi rk ty (.union u) = true)
     {i vi : Nat} {nm : String} (hv : u.variants[i]? = some (vi, nm)) : rkAt rk vi < rkAt rk ty := by
   simp only [Inst.fillRanked, List.all_eq_true, decide_eq_true_eq] at h
@@ -490,7 +537,7 @@ theorem fillRanked_variant {gi : GenInfo} {rk : List Nat} {ty : Nat} {u : UnionD
 `k · (|d| + 1) + rank + 1` suffices, and the call returns with the depth counters unchanged -/
 theorem fillTL1_term (d : Desc) (gi : GenInfo) (rk : List Nat) (S : Nat → Bool) (hcl : d.closed S = true)
     (hbd : d.allOnI S (fun i _ => decide (rkAt rk i ≤ d.insts.size)) = true)
-    (hrk : d.allOnI S (Inst.fillRanked gi rk) = true) (hcf : d.allOnI S (Inst.capFree d gi) = true) :
+    (hrk : d.allOnI S (Inst.fillRanked gi rk) = true) (hcf : d.allOnI S (Inst.satOk d gi) = true) :
     ∀ (fuel k ty : Nat) (params : List Nat) (rg : RG), S ty = true → 1 ≤ k → rg.cur + k = rg.maxDepth →
       k * (d.insts.size + 1) + rkAt rk ty + 1 ≤ fuel → Good (fillTL1 d gi fuel) ty params rg := by
   intro fuel
@@ -500,7 +547,7 @@ theorem fillTL1_term (d : Desc) (gi : GenInfo) (rk : List Nat) (S : Nat → Bool
     intro k ty params rg hSty hk hck hfuel
     have hlt : rg.cur < rg.maxDepth := by omega
     -- bodies entered through an `IncreaseDepth` site
-    have hBody : ∀ ty', S ty' = true → quiet d gi (d.insts.size + 1) ty' = true ∨ 2 ≤ k →
+    have hBody : ∀ ty', S ty' = true → satFinite d gi (d.insts.size + 1) ty' = true ∨ 2 ≤ k →
         ∀ na rg', rg'.cur = rg.cur + 1 → rg'.maxDepth = rg.maxDepth → Good (fillTL1 d gi fuel) ty' na rg' := by
       intro ty' hS' hq na rg' h1 h2
       by_cases ck : 2 ≤ k
@@ -545,9 +592,9 @@ theorem fillTL1_term (d : Desc) (gi : GenInfo) (rk : List Nat) (S : Nat → Bool
         · rw [if_pos co]; exact goodL_error (by decide) rg
         · rw [if_neg co]
           simp only [Inst.fillRanked] at hir
-          simp only [Inst.capFree] at hic
+          simp only [Inst.satOk] at hic
           have hfl := fillFields_term (fl := fillTL1 d gi fuel) (gx := structGx gi ty s) (params := params) (S := S)
-            (q := quiet d gi (d.insts.size + 1)) (rk := rk) (r := rkAt rk ty) (c := rg.cur) (m := rg.maxDepth) hlt
+            (q := satFinite d gi (d.insts.size + 1)) (rk := rk) (r := rkAt rk ty) (c := rg.cur) (m := rg.maxDepth) hlt
             (fun ty' hlt' hS' na rg' h1 h2 => ih k ty' na rg' hS' hk (by omega) (by omega))
             (fun ty' hS' hq na rg' h1 h2 => hBody ty' hS' (Or.inl hq) na rg' h1 h2)
             s.fields 0 [] rg (fun f hf => hrefs _ (by simp only [Inst.refs]; exact List.mem_map_of_mem hf)) hir hic rfl rfl
@@ -586,8 +633,8 @@ theorem fillTL1_term (d : Desc) (gi : GenInfo) (rk : List Nat) (S : Nat → Bool
             | none => exact goodL_error (by decide) rg
             | some n =>
               simp only
-              have hq : quiet d gi (d.insts.size + 1) a.elem.ty = true := by
-                simpa [Inst.capFree, ct] using hic
+              have hq : satFinite d gi (d.insts.size + 1) a.elem.ty = true := by
+                simpa [Inst.satOk, ct] using hic
               exact elems_after_inc a.elem na hlt (hBody _ hSe (Or.inl hq) na) n rg.inc (RG.same_refl _)
           · rw [if_neg ct]
             by_cases ck : 2 ≤ k
